@@ -914,3 +914,7 @@ mutant('B4-committed-info-loses-code', ['C09', 'C07'], [
     ('src/scheduler/ordered_commit.rs', ".map_err(|error| GrevmError { txid, error: EVMError::Database(error) })?;\n            let mut account = Account::from(reward.apply_to(info));",
      ".map_err(|error| GrevmError { txid, error: EVMError::Database(error) })?\n                .map(|info| info.without_code());\n            let mut account = Account::from(reward.apply_to(info));"),
 ], ['|B4|'])
+
+mutant('H4-root-shape-excluded-every-time', ['C13'], [
+    ('src/delegated_safety/reserve.rs', "                root_value_pending = false;\n", ""),
+], ['root-transfer-excluded-at-most-once'])
